@@ -148,7 +148,8 @@ def build_esched(bdir, step):
     return exe
 
 import c14tsan, c14imports
-check('C14', level='model_checking', steps=[dict(builder=build_esched, name='esched'), dict(kind='py', name='tsan', fn=c14tsan.run), dict(kind='py', name='imports', fn=c14imports.run)],
+check('C14', level='model_checking', steps=[dict(builder=build_esched, name='esched'), dict(kind='py', name='tsan', fn=c14tsan.run), dict(kind='py', name='tsan-idn', fn=c14tsan.run_idn), dict(kind='py', name='tsan-idnkit', fn=c14tsan.run_idnkit),
+                                             dict(kind='py', name='imports', fn=c14imports.run)],
       rule=("a state is (scheduling points passed by each thread, digest of all memory the threads share); states are distinct by construction of the visited set; "
             "every execution is a complete run of real pthreads under the controlled scheduler; distinct_nontrivial = distinct states reached over all harnesses; the scheduler's model of libc (every call one atomic step without hidden state) is closed by enumerating the import table of the library objects against the MT-Unsafe list"),
       deadline=dict(quick=240, thorough=3000),
@@ -249,6 +250,25 @@ def run_step(exe, step, tier, out, known_ids, deadline, env=None):
     r = subprocess.run(cmd, env=e, stdout=subprocess.PIPE, stderr=subprocess.STDOUT, text=True, errors='replace')
     return r.returncode, r.stdout
 
+def embedded_strings(bdir):
+    """Every printable string of >= 2 characters compiled into the library objects of the working tree (strings(1) over the plain build): a name the
+    library treats specially has to be spelled somewhere in its read-only data.  The corpus phase 'embed' (drv/corpus.h) turns them into last labels,
+    second-level labels and pairs; the file path is handed to the drivers through MC_EMBED."""
+    path = os.path.join(bdir, 'embedded.txt')
+    if not os.path.exists(path):
+        objs = BL.build_objects(bdir, 'plain', prefix='embed')
+        seen = set()
+        for o in objs:
+            if os.path.basename(o).startswith('src_auto_tld'): continue      # the TLD table itself is walked row by row elsewhere
+            rc, out = BL.sh(['strings', '-n', '2', o])
+            for l in out.splitlines():
+                for w in re.split(r'[^A-Za-z0-9-]+', l):
+                    if 2 <= len(w) <= 63 and not w.startswith('-') and not w.endswith('-'): seen.add(w.lower())
+        with open(path, 'w') as f:
+            f.write('\n'.join(sorted(seen)) + '\n')
+    os.environ['MC_EMBED'] = path
+    return path
+
 def run_check(pid, tier):
     if pid not in CHECKS:
         print('unknown property %s' % pid); return 2
@@ -266,6 +286,7 @@ def run_check(pid, tier):
     results = []; exes = {}
     viol_lines = []; known_lines = []; harness_err = None
     try:
+        embedded_strings(bdir)
         for step in cfg['steps']:
             if tier not in step.get('tiers', ('quick', 'thorough')):
                 continue
